@@ -123,6 +123,8 @@ def handler(case):
                     viols.append(("time.div-raise", f"Time{a}/Time{b} raised {e!r}"))
         return dict(ops=[f"time div {fr(a[0])} {a[1]} {fr(b[0])} {b[1]}"], impl=[out], viols=viols,
                     nontrivial=("div", a[1], b[1], b[0] == 0), tag="div")
+    if k == "simhod":
+        return simhod_case(case)
     if k == "hod":
         h, m, s = case["h"], case["m"], case["s"]; q, u = Fraction(case["q"]), case["u"]
         with _Exact():
@@ -249,8 +251,64 @@ def compare(case, m, i):
 UNITS = [1, 2, 3, 4, 5, 6, 7]
 
 
+def simhod_case(case):
+    """The hour of day the *simulator* derives: a real sequential run from a start stamp (any year / month / day / hour / minute),
+    a line fault injected at some increment; every call in which an EV park is handed an hour of day is observed and the hour
+    compared with (start hour + elapsed whole hours) mod 24 of that increment."""
+    import contextlib, io
+    from . import net
+    from relsad.simulation import Simulation
+    from relsad.Time import Time, TimeStamp, TimeUnit
+    from relsad.network.components import EVPark
+    Y, Mo, D, h, m = case["start"]
+    step_min, n_inc, k0 = case["step_min"], case["n_inc"], case["fault_k"]
+    spec = {"ctrl": {"type": "manual", "T": "1"}, "feeders": [{"parent": [-1, 0, 1], "sw": [3, 3, 3], "cust": [1, 1, 1], "load": ["1/50"] * 3, "cost": [1, 1, 1],
+                                                                "ev": {"2": {"hours": list(range(24)), "table": [str(x + 1) for x in range(24)], "v2g": True}}}],
+            "tie": None, "mg": None, "rep": "2", "exact": False, "nprof": n_inc}
+    ps = net.build(spec)
+    sim = Simulation(ps, random_seed=case.get("seed", 1))
+    unit = TimeUnit.HOUR if case["unit"] == 3 else TimeUnit.MINUTE
+    step = Time(step_min / 60, TimeUnit.HOUR) if case["step_in_hours"] else Time(step_min, TimeUnit.MINUTE)
+    tot = h * 60 + m + n_inc * step_min
+    stop = TimeStamp(year=Y, month=Mo, day=D + tot // 1440, hour=(tot % 1440) // 60, minute=tot % 60)
+    seen, state = [], {"k": 0}
+
+    def cb(ps, prev_time, curr_time):
+        state["k"] += 1
+        if state["k"] == k0:
+            ps.get_comp("F0L1").fail(curr_time - prev_time if prev_time is not None else curr_time)
+    orig = EVPark.update
+
+    def upd(self, p, q, fail_duration, dt, hour_of_day):
+        seen.append((state["k"], hour_of_day))
+        return orig(self, p=p, q=q, fail_duration=fail_duration, dt=dt, hour_of_day=hour_of_day)
+    EVPark.update = upd
+    viols = []
+    try:
+        with contextlib.redirect_stdout(io.StringIO()):
+            sim.run_sequential(start_time=TimeStamp(year=Y, month=Mo, day=D, hour=h, minute=m), stop_time=stop, time_step=step, time_unit=unit,
+                               callback=cb, save_flag=False)
+    except Exception as e:
+        viols.append(("simhod.raise", f"run from {case['start']} raised {type(e).__name__}: {str(e)[:80]}"))
+    finally:
+        EVPark.update = orig
+    for kk, hod in seen:
+        want = ((h * 60 + m + kk * step_min) // 60) % 24
+        if hod != want:
+            viols.append(("simhod.spec", f"run started at {Y}-{Mo}-{D} {h:02d}:{m:02d}, step {step_min} min: in increment {kk} the EV parks were handed hour of day {hod}, start + elapsed gives {want}"))
+            break
+    return dict(ops=[], impl=[], viols=viols, nontrivial=("simhod", Y > 0, Mo > 0, D > 0, m > 0, step_min, case["unit"], len(seen) > 0, k0 > 1), tag="simhod")
+
+
 def gen(rng, n_each):
     cases = []
+    # the hour of day inside real runs (start stamps with and without year / month / day; faults at the first and at later increments)
+    for j in range(max(6, n_each // 20)):
+        start = [rng.choice([0, 2019]) if j % 2 else 0, rng.choice([0, 1, 7]) if j % 3 == 1 else 0, rng.choice([0, 1, 15]) if j % 3 != 0 else 0, rng.randrange(24), rng.choice([0, 0, 30, 45])]
+        step_min = rng.choice([60, 60, 30, 15])
+        n_inc = rng.choice([30, 40]) * (60 // step_min) // 2
+        cases.append({"kind": "simhod", "start": start, "step_min": step_min, "n_inc": n_inc,
+                      "fault_k": 1 if j % 4 == 0 else rng.randint(2, n_inc - 4), "unit": rng.choice([3, 3, 2]), "step_in_hours": rng.random() < 0.5, "seed": rng.randint(1, 999)})
     # conversions: all 49 unit pairs x several quantities
     for u in UNITS:
         for v in UNITS:
